@@ -163,7 +163,35 @@ fn mutate(rng: &mut Rng, outer_text: &str, outer: &J, inner: &J, paths: &[Vec<St
         }
         serde_json::to_vec(&o).unwrap()
     };
-    match rng.below(16) {
+    match rng.below(17) {
+        16 => {
+            // change ONE version number, at any nesting level (the envelopes of constants are
+            // nested, escaped JSON strings inside the payload)
+            let bytes = outer_text.as_bytes();
+            let mut hits = vec![];
+            let pat = b"version";
+            let mut i = 0;
+            while i + pat.len() < bytes.len() {
+                if &bytes[i..i + pat.len()] == pat {
+                    // skip escaped quotes and the colon, expect the digit 2
+                    let mut j = i + pat.len();
+                    while j < bytes.len() && (bytes[j] == b'\\' || bytes[j] == b'"' || bytes[j] == b':') {
+                        j += 1;
+                    }
+                    if j < bytes.len() && bytes[j] == b'2' && (j + 1 >= bytes.len() || !bytes[j + 1].is_ascii_digit()) {
+                        hits.push(j);
+                    }
+                }
+                i += 1;
+            }
+            if hits.is_empty() {
+                return (outer_text.as_bytes().to_vec(), "noop");
+            }
+            let j = hits[rng.usize(hits.len())];
+            let mut b = bytes.to_vec();
+            b[j] = *rng.pick(&[b'3', b'7', b'9', b'0', b'1']);
+            (b, "nested_version")
+        }
         0 => {
             let cut = rng.usize(outer_text.len().max(1));
             (outer_text.as_bytes()[..cut].to_vec(), "truncate_outer")
@@ -403,6 +431,14 @@ pub fn run(ctx: &mut Ctx) {
                 Ok(Err(_)) => ctx.count("mutants_rejected", 1),
                 Ok(Ok(m)) => {
                     ctx.count("mutants_accepted", 1);
+                    if class == "version" || class == "nested_version" {
+                        ctx.violation(
+                            &format!("C12|wrong_version_accepted|{}", class),
+                            json!({"what": "a serialized context whose (outer or nested) version number was changed is accepted instead of rejected",
+                                   "mutation": class, "producer": label,
+                                   "text": String::from_utf8_lossy(&bytes).chars().take(600).collect::<String>()}),
+                        );
+                    }
                     if let Err(e) = walk(&m.verif_dump()) {
                         let kind = e.split(|ch: char| ch.is_ascii_digit() || ch == '(').next().unwrap_or("").trim().to_string();
                         ctx.violation(
